@@ -145,7 +145,8 @@ def run(ctx):
         picked = allcases
     cases = []
     for s, d in picked:
-        cases.append({"src": s, "dst": d, "del": rng.random() < 0.5, "cwd": rng.choice(["outside", "root", "inside"]), "sibling": rng.random() < 0.7})
+        cases.append({"src": s, "dst": d, "del": rng.random() < 0.5, "cwd": rng.choice(["outside", "root", "inside"]), "sibling": rng.random() < 0.7,
+                      "tv": rng.choice([0, 0, 1, 2])})
     if not ctx.quick:
         cases += [dict(c, **{"del": not c["del"]}) for c in cases[:: 3]]
     gw = execnet.makegateway("popen")
